@@ -4,6 +4,7 @@ package main
 
 import (
 	"go/ast"
+	"go/token"
 	"go/types"
 	"strings"
 
@@ -406,6 +407,49 @@ func checkC10(c *Ctx) {
 			}
 			rs.Check(live && okf, cta.Name(), "NowFunc() under !SkipHooks", call.Pos(), "no time tracking for column updates", "an update-time value is generated without checking SkipHooks: UpdateColumn(s) refresh tracked timestamps")
 		}
+		// every use of the auto-update-time trait to widen or fill the assignment list is tied to !SkipHooks
+		parents := parentMap(cta.Body)
+		ast.Inspect(cta.Body, func(x ast.Node) bool {
+			be, ok := x.(*ast.BinaryExpr)
+			if !ok || be.Op != token.GTR || !strings.HasSuffix(canon(info, be.X), ".AutoUpdateTime") || !isZeroLit(be.Y) {
+				return true
+			}
+			// conjoined with !X.SkipHooks in the same && chain?
+			conj := false
+			var cur ast.Node = be
+			for {
+				par, ok := parents[cur].(*ast.BinaryExpr)
+				if pp, isParen := parents[cur].(*ast.ParenExpr); isParen {
+					cur = pp
+					continue
+				}
+				if !ok || par.Op != token.LAND {
+					break
+				}
+				other := par.X
+				if other == cur.(ast.Expr) {
+					other = par.Y
+				}
+				ast.Inspect(other, func(y ast.Node) bool {
+					if u, ok := y.(*ast.UnaryExpr); ok && u.Op == token.NOT && strings.HasSuffix(canon(info, u.X), ".SkipHooks") {
+						conj = true
+					}
+					return true
+				})
+				cur = par
+			}
+			facts, live := p.Guards(cta, nil).At(be.Pos())
+			guarded := false
+			if live {
+				for f := range facts {
+					if strings.HasPrefix(f, "F:") && strings.HasSuffix(f, ".SkipHooks") {
+						guarded = true
+					}
+				}
+			}
+			rs.Check(conj || guarded, cta.Name(), "AutoUpdateTime trait tied to !SkipHooks", be.Pos(), "tracked update-time only for hook-running updates", "the UPDATE builder treats a field specially because it is an auto-update-time field without also requiring !SkipHooks: a column update (UpdateColumn(s) / SkipHooks session) writes or refreshes the tracked timestamp")
+			return true
+		})
 		rs.Check(n >= 1, cta.Name(), "auto update-time present", cta.Body.Pos(), "tracked timestamps are refreshed by hook-running updates", "the UPDATE builder no longer refreshes tracked update-time fields")
 	}
 	skipF := p.Field(stmtT, "SkipHooks")
